@@ -272,33 +272,3 @@ Definition same_reading (a b : chars) : bool :=
   | _, _ => false
   end.
 
-(* column of every token in the single-line rendering: one space between tokens except after an opener or a quote
-   and before a closing parenthesis *)
-Definition opens (t : token) : bool := match t with LP | HOPEN _ | QUOTE => true | _ => false end.
-Fixpoint flat_cols (prev_opens : bool) (col : nat) (ts : list token) : list (nat * token) :=
-  match ts with
-  | [] => []
-  | t :: r =>
-      let col' := match t with RP => col | _ => if prev_opens then col else S col end in
-      (col', t) :: flat_cols (opens t) (col' + List.length (tok_text t)) r
-  end.
-(* does a quoted list -- or a (:method ...) option or a (defmethod ...) form, whose documentation string node is not
-   moved with its parent either (pp/methodOption.go, pp/defgenmethod.go) -- start at or beyond column lim of the
-   single-line rendering? *)
-Definition method_chars : chars := list_ascii_of_string ":method".
-Definition defmethod_chars : chars := list_ascii_of_string "defmethod".
-Fixpoint quoted_list_beyond (lim : nat) (cts : list (nat * token)) : bool :=
-  match cts with
-  | (c, QUOTE) :: ((_, LP) :: _) as r => Nat.leb lim c || quoted_list_beyond lim r
-  | (c, LP) :: ((_, ATOM q) :: ((_, LP) :: _)) as r =>
-      ((chars_eqb q quote_chars || chars_eqb q method_chars) && Nat.leb lim c) || quoted_list_beyond lim r
-  | (c, LP) :: ((_, ATOM q) :: _) as r =>
-      ((chars_eqb q method_chars || chars_eqb q defmethod_chars) && Nat.leb lim c) || quoted_list_beyond lim r
-  | _ :: r => quoted_list_beyond lim r
-  | [] => false
-  end.
-Definition far_quote_text (text : chars) : bool :=
-  match lex text with
-  | Some ts => quoted_list_beyond 250 (flat_cols true 0 ts)
-  | None => true
-  end.
